@@ -18,6 +18,8 @@ func init() {
 			"every exit of a walk function that signals an error (return r.err()) has recorded an error on all paths in the validation pass; every leaf walker tests null-ness before it tests the JSON kind and, on the null edge, either renders null under Nullable or records the non-null violation; the JSON tree is nulled only in the validation pass (two idempotent array sites frozen); " +
 			"the renderer's bookkeeping stacks (response path, runtime type names, enclosing type names) are balanced on every exit of every walk function. It does not decide JSON validity, key-set equality or projection equality (value level).",
 		Mutants: []Mutant{
+			{Name: "non-JSON string content written between raw quotes (reverts the F44 fix)", File: "v2/pkg/engine/resolve/resolvable.go", Rule: "C02-R12", Key: "Resolvable.walkString/raw-string-content-printed",
+				Old: "\t\t\t\t// not JSON after all: render the string itself, properly escaped\n\t\t\t\tr.renderScalarFieldValue(value, s.Nullable)\n", New: "\t\t\t\tr.printBytes(quote)\n\t\t\t\tr.printBytes(content)\n\t\t\t\tr.printBytes(quote)\n"},
 			{Name: "inaccessible enum values looked up by binary search in an unsorted list (seeded change C02-22)", File: "v2/pkg/engine/resolve/node_enum.go", Rule: "C02-R11", Key: "Enum.isAccessibleValue/binary-search-over:InaccessibleValues",
 				Old: "\treturn !slices.Contains(e.InaccessibleValues, returnedValue)\n", New: "\t_, inaccessible := slices.BinarySearch(e.InaccessibleValues, returnedValue)\n\treturn !inaccessible\n"},
 			{Name: "kind-mismatch error of a list recorded with the already pushed path (the repaired defect F25)", File: "v2/pkg/engine/resolve/resolvable.go", Rule: "C02-R10", Key: "walkArray/addError-path-not-already-pushed",
@@ -59,6 +61,7 @@ var c02Recorders = map[string]bool{
 
 func runC02(r *fw.Run) {
 	defer c02CopyPreserves(r)
+	defer c02StringContentNeverPrintedRaw(r)
 	defer c02BinarySearchNeedsSortedWriter(r)
 	defer c02ErrorPathNotDoubled(r)
 	defer c02SetNullNeedsAPath(r)
@@ -984,4 +987,52 @@ func c02BinarySearchNeedsSortedWriter(r *fw.Run) {
 		}
 	}
 	r.Pass("C02-R11", "binary-searches-scanned", "-", "all "+itoa(nScanned)+" calls of resolve, plan and postprocess examined; "+itoa(nSearch)+" binary searches over plan-node fields", nScanned > 0)
+}
+
+// c02StringContentNeverPrintedRaw (R12): (*astjson.Value).GetStringBytes returns the *unescaped* content of a JSON string a
+// subgraph sent. Written to the response between two quote bytes it is not a JSON string any more: a value containing a
+// quote or a backslash makes the response unparsable, and `x","injected":"y` adds a sibling key to `data` — a string of one
+// subgraph rewrites the structure of the response. The rule is a taint rule over the renderer: no argument of
+// Resolvable.printBytes derives from GetStringBytes of a JSON value (the escaping sinks printNode / renderScalarFieldValue /
+// MarshalTo, and renderScalarFieldBytes, which re-parses and fails loudly, are the sanctioned ways out).
+func c02StringContentNeverPrintedRaw(r *fw.Run) {
+	p := r.Prog
+	r.Rule("C02-R12", "no argument of Resolvable.printBytes derives from the unescaped content of a subgraph string ((*astjson.Value).GetStringBytes): string values leave the renderer only through escaping or re-parsing sinks")
+	nSinks, nTainted := 0, 0
+	for _, fi := range p.Funcs("resolve") {
+		if fw.RecvName(recvTypeOrNil(fi.Obj)) != "Resolvable" {
+			continue
+		}
+		info := fi.Info()
+		d := fw.NewPureDeriver(fi)
+		isContent := func(e ast.Expr) bool {
+			c, ok := e.(*ast.CallExpr)
+			if !ok {
+				return false
+			}
+			fn := fw.Callee(info, c)
+			if fn == nil || fn.Name() != "GetStringBytes" {
+				return false
+			}
+			sig, _ := fn.Type().(*types.Signature)
+			return sig != nil && sig.Recv() != nil && strings.HasSuffix(sig.Recv().Type().String(), "astjson.Value") && len(c.Args) == 0
+		}
+		ord := 0
+		fw.WalkAll(fi.Decl.Body, func(nd ast.Node) bool {
+			c, ok := nd.(*ast.CallExpr)
+			if !ok || !fw.CallIs(info, c, "resolve", "Resolvable.printBytes") || len(c.Args) != 1 {
+				return true
+			}
+			nSinks++
+			if d.Derives(c.Args[0], isContent) {
+				nTainted++
+				ord++
+				r.Fail("C02-R12", fi.Name()+"/raw-string-content-printed#"+itoa(ord), p.Pos(c.Pos()), "string content of a subgraph value is never printed raw",
+					"the unescaped content of a subgraph string is written to the response as is: a quote or backslash in it makes the response invalid JSON, and a value like `x\",\"injected\":\"y` closes the string and adds a sibling key to data")
+			}
+			return true
+		})
+	}
+	r.Check(nTainted == 0, "C02-R12", "no-raw-string-content", "-", "none of the "+itoa(nSinks)+" printBytes calls of the renderer is fed from GetStringBytes()", "see the individual sites")
+	r.Expect("C02-R12", "printBytes calls in Resolvable methods", nSinks, 100)
 }
